@@ -350,12 +350,22 @@ def direct_cases(ctx, tab):
 
 def pipeline_cases(ctx, tab):
     rng = ctx.rng
-    for k in range(ctx.n(4, 24)):
+    nbase = ctx.n(4, 24)
+    sweep = [("podGac", j) for j in range(len(filegen.PLATFORMS["pod"]))] + [("klmGac", j) for j in range(len(filegen.PLATFORMS["klm"]))]
+    for k in range(nbase + len(sweep)):
         fmt = rng.choice(["klmGac", "podGac", "klmGac", "podLac"])
         n = rng.choice([12, 60]) if fmt.endswith("Gac") else 10
         sat = "noaa16" if fmt.startswith("klm") else "noaa14"
         start = ydm_to_ms(2002, 187, 40000000) if fmt.startswith("klm") else ydm_to_ms(2000, 322, 40000000)
         n0 = rng.choice([1, 3, 4])
+        plat = None
+        if k >= nbase:
+            # PLATFORM SWEEP: a file of every spacecraft of either family (header id and platform code from the user's guides,
+            # filegen.PLATFORMS - not from the readers' tables) is calibrated with THAT spacecraft's coefficient set
+            fmt, plat = sweep[k - nbase]
+            sid, pcode, sat, (yy, dd) = filegen.PLATFORMS[filegen.FMT[fmt]["family"]][plat]
+            start = ydm_to_ms(yy, dd, 40000000)
+            n = 12
         nums_file = list(range(n0, n0 + n))
         cls = filegen.reader_class(fmt)
         if k == 0:
@@ -366,7 +376,11 @@ def pipeline_cases(ctx, tab):
             nums_file = list(range(n0, n0 + 25)) + list(range(n0 + 32800, n0 + 32825))
             cls = type("LACKLMNoSanitise", (filegen.reader_class(fmt),), {"correct_scan_line_numbers": lambda self: {}})
         tp = timesgen.TimePass(fmt, nums_file, start)
-        b = tp.build(ctx, rng)
+        if plat is not None:
+            b = tp.build(ctx, rng, **({"pod_epoch": filegen.pod_epoch_of(yy, dd)} if fmt.startswith("pod") else {}))
+            b.sat_id, b.plat = sid, pcode
+        else:
+            b = tp.build(ctx, rng)
         b.samples = b.nprng.integers(300, 950, size=b.samples.shape, dtype=np.uint32)
         data = b.tobytes()
         r = cls(tle_dir=filegen.tle_dir(ctx), tle_name="TLE_%(satname)s.txt", adjust_clock_drift=False)
@@ -404,9 +418,9 @@ def pipeline_cases(ctx, tab):
                     continue      # 3b lines are blanked / routed by the channel-select bits (C14)
                 ok, detail = compare_bt([g], [want[1][line]], tol=1e-5)
                 if not ok:
-                    ctx.violation("%s pipeline channel %d line %d: %s" % (fmt, chan, line, detail),
-                                  {"fmt": fmt, "stream": "pipeline", "n0": n0}, cls="thermal-pipeline")
-        ctx.case((fmt, n0, n), nontrivial=True, branch="pipeline/" + fmt)
+                    ctx.violation("%s pipeline (%s) channel %d line %d: %s" % (fmt, sat, chan, line, detail),
+                                  {"fmt": fmt, "stream": "pipeline", "n0": n0, "platform": plat, "spacecraft": sat}, cls="thermal-pipeline")
+        ctx.case((fmt, n0, n, plat), nontrivial=True, branch=("pipeline/" + fmt) if plat is None else "pipeline/platform-sweep")
 
 
 def run(ctx):
